@@ -98,9 +98,22 @@ pub struct SecretMeta { _p: () }
 #[verifier::external_body]
 pub ghost struct SecretMetaV { _p: () }
 impl View for SecretMeta { type V = SecretMetaV; uninterp spec fn view(&self) -> SecretMetaV; }
-/// `sos_vault::secret::Secret` — opaque
+/// `pem::Pem` (pem-3: tag + contents) — opaque
 #[verifier::external_body]
-pub struct Secret { _p: () }
+pub struct Pem { _p: () }
+/// `sos_vault::secret::UserData` (secret.rs:645) — opaque
+#[verifier::external_body]
+pub struct UserData { _p: () }
+/// the payload of the 15 variants of `Secret` the extracted code never matches — opaque
+#[verifier::external_body]
+pub struct SecretOther { _p: () }
+/// `sos_vault::secret::Secret` (secret.rs:1089, 16 variants over third-party types): the `Pem` variant with its real
+/// fields (secret.rs:1061; matched by local_account.rs:359 and :1490, whose text is extracted unchanged), the 15 other
+/// variants collapsed into `Other`.  The VIEW stays abstract (nothing is said about how it depends on the variant).
+pub enum Secret {
+    Pem { certificates: Vec<Pem>, user_data: UserData },
+    Other { inner: SecretOther },
+}
 #[verifier::external_body]
 pub ghost struct SecretV { _p: () }
 impl View for Secret { type V = SecretV; uninterp spec fn view(&self) -> SecretV; }
@@ -123,9 +136,9 @@ impl Clone for Secret {
     #[verifier::external_body]
     fn clone(&self) -> (r: Secret) ensures r@ == self@, { unimplemented!() }
 }
-/// R12 `if let Secret::Pem { certificates, .. } = &secret { if certificates.is_empty() { .. } }`
-/// (local_account.rs:359 and :1490): a PEM secret without certificates; the `Secret` enum
-/// (secret.rs:1089, 16 variants over third-party types) is opaque in this unit
+/// `if let Secret::Pem { certificates, .. } = &secret { if certificates.is_empty() { .. } }`
+/// (local_account.rs:359 and :1490) as ONE call: a PEM secret without certificates.  No longer used by unit account
+/// (the check is extracted text over the `Secret::Pem` variant above); kept for reference
 pub uninterp spec fn empty_pem(s: SecretV) -> bool;
 #[verifier::external_body]
 pub fn secret_is_empty_pem(secret: &Secret) -> (r: bool)
@@ -153,6 +166,14 @@ impl Summary {
         ensures r.b == self.sflags(),
     { unimplemented!() }
 }
+impl Summary {
+    pub uninterp spec fn sname(&self) -> Seq<char>;
+    /// vault.rs `Summary::name`: `&self.name`
+    #[verifier::external_body]
+    pub fn name(&self) -> (r: &str)
+        ensures r@ == self.sname(),
+    { unimplemented!() }
+}
 impl Clone for Summary {
     /// `#[derive(Clone)]`
     #[verifier::external_body]
@@ -163,6 +184,12 @@ pub spec const FLAG_DEFAULT: u64 = 1;
 pub spec const FLAG_ARCHIVE: u64 = 4;
 pub spec const FLAG_AUTHENTICATOR: u64 = 8;
 pub spec const FLAG_CONTACT: u64 = 16;
+pub spec const FLAG_IDENTITY: u64 = 2;
+pub spec const FLAG_SYSTEM: u64 = 32;
+pub spec const FLAG_DEVICE: u64 = 64;
+pub spec const FLAG_NO_SYNC: u64 = 128;
+pub spec const FLAG_LOCAL: u64 = 256;
+pub spec const FLAG_SHARED: u64 = 512;
 pub open spec fn has_flag(b: u64, bit: u64) -> bool { b & bit == bit }
 impl VaultFlags {
     /// lib.rs:157 `self.contains(VaultFlags::DEFAULT)` (bitflags `contains`: all bits of `other` set)
@@ -177,6 +204,35 @@ impl VaultFlags {
     /// lib.rs:177 `self.contains(VaultFlags::CONTACT)`
     #[verifier::external_body]
     pub fn is_contact(&self) -> (r: bool) ensures r == has_flag(self.b, FLAG_CONTACT), { unimplemented!() }
+    /// lib.rs:162 `self.contains(VaultFlags::IDENTITY)`
+    #[verifier::external_body]
+    pub fn is_identity(&self) -> (r: bool) ensures r == has_flag(self.b, FLAG_IDENTITY), { unimplemented!() }
+    /// lib.rs:182 `self.contains(VaultFlags::SYSTEM)`
+    #[verifier::external_body]
+    pub fn is_system(&self) -> (r: bool) ensures r == has_flag(self.b, FLAG_SYSTEM), { unimplemented!() }
+    /// lib.rs:187 `self.contains(VaultFlags::DEVICE)`
+    #[verifier::external_body]
+    pub fn is_device(&self) -> (r: bool) ensures r == has_flag(self.b, FLAG_DEVICE), { unimplemented!() }
+    /// lib.rs:193 `self.contains(VaultFlags::NO_SYNC)`
+    #[verifier::external_body]
+    pub fn is_sync_disabled(&self) -> (r: bool) ensures r == has_flag(self.b, FLAG_NO_SYNC), { unimplemented!() }
+    /// lib.rs:198 `self.contains(VaultFlags::LOCAL)`
+    #[verifier::external_body]
+    pub fn is_local(&self) -> (r: bool) ensures r == has_flag(self.b, FLAG_LOCAL), { unimplemented!() }
+    /// lib.rs:203 `self.contains(VaultFlags::SHARED)`
+    #[verifier::external_body]
+    pub fn is_shared(&self) -> (r: bool) ensures r == has_flag(self.b, FLAG_SHARED), { unimplemented!() }
+    /// the flag constants of `bitflags! VaultFlags` (lib.rs:117-151) as values (`VaultFlags::ARCHIVE` ..)
+    pub const DEFAULT: VaultFlags = VaultFlags { b: 1 };
+    pub const IDENTITY: VaultFlags = VaultFlags { b: 2 };
+    pub const ARCHIVE: VaultFlags = VaultFlags { b: 4 };
+    pub const AUTHENTICATOR: VaultFlags = VaultFlags { b: 8 };
+    pub const CONTACT: VaultFlags = VaultFlags { b: 16 };
+    pub const SYSTEM: VaultFlags = VaultFlags { b: 32 };
+    pub const DEVICE: VaultFlags = VaultFlags { b: 64 };
+    pub const NO_SYNC: VaultFlags = VaultFlags { b: 128 };
+    pub const LOCAL: VaultFlags = VaultFlags { b: 256 };
+    pub const SHARED: VaultFlags = VaultFlags { b: 512 };
 }
 
 // ---- `Iterator::find` over the summaries ---------------------------------------------------
@@ -222,6 +278,19 @@ impl<K: View, V> HashMap<K, V> {
     #[verifier::external_body]
     pub fn get(&self, k: &K) -> (r: Option<&V>)
         ensures r == (if self@.contains_key(k@) { Some(&self@[k@]) } else { None }),
+    { unimplemented!() }
+    /// `HashMap::contains_key` (keys compared by `Eq`, here: by view)
+    #[verifier::external_body]
+    pub fn contains_key(&self, k: &K) -> (r: bool) ensures r == self@.contains_key(k@), { unimplemented!() }
+    /// `HashMap::insert`: the entry is set, the previous value (if any) handed back
+    #[verifier::external_body]
+    pub fn insert(&mut self, k: K, v: V) -> (r: Option<V>)
+        ensures final(self)@ == old(self)@.insert(k@, v), r is Some <==> old(self)@.contains_key(k@), r is Some ==> r->Some_0 == old(self)@[k@],
+    { unimplemented!() }
+    /// `HashMap::remove`: the entry is gone, its value (if any) handed back
+    #[verifier::external_body]
+    pub fn remove(&mut self, k: &K) -> (r: Option<V>)
+        ensures final(self)@ == old(self)@.remove(k@), r is Some <==> old(self)@.contains_key(k@), r is Some ==> r->Some_0 == old(self)@[k@],
     { unimplemented!() }
     /// `HashMap::get_mut`: a mutable reference to the stored value; whatever is written through
     /// it is the entry's new value, no other entry changes
